@@ -167,7 +167,14 @@ func runC15(src sim.Source, o Opts) *Result {
 		}
 		res.inc("config_custom_recovery_func")
 	}
-	w, err := world.Build(cfg, fox.WithMiddleware(fox.CustomRecoveryWithLogHandler(capt, recoverFn)))
+	// one run in three installs the Recovery middleware twice (router-wide plus a second layer, as with a route-level
+	// Recovery under a global one): the inner layer answers ordinary panics, the abort sentinel passes both
+	recs := []fox.MiddlewareFunc{fox.CustomRecoveryWithLogHandler(capt, recoverFn)}
+	if src.Intn("tworecoveries", 3) == 2 {
+		recs = append(recs, fox.CustomRecoveryWithLogHandler(capt, recoverFn))
+		res.inc("config_two_recovery_layers")
+	}
+	w, err := world.Build(cfg, fox.WithMiddleware(recs...))
 	if err != nil {
 		res.Trouble = err.Error()
 		return res
@@ -339,7 +346,9 @@ func runC15(src sim.Source, o Opts) *Result {
 	// chunk and then panics with the value - the response has started by then
 	// "refused-status": the handler asks for a status code the connection refuses by panicking (net/http does for codes
 	// outside 100-999): nothing has been sent, the panic is the connection's own
-	progress := []string{"nothing", "header", "partial", "failed-write", "copy-source-panics", "refused-status"}
+	// "copy-source-panics-fastpath": the same on a connection that offers io.ReaderFrom (as net/http's does): the copy is
+	// delegated, and what the connection accepted before the source panicked is known to the connection only
+	progress := []string{"nothing", "header", "partial", "failed-write", "copy-source-panics", "copy-source-panics-fastpath", "refused-status"}
 	{
 		// keep only the sites whose request really reaches the intended handler kind for this route set
 		mcfg := w.ModelCfg()
@@ -363,8 +372,16 @@ func runC15(src sim.Source, o Opts) *Result {
 			res.fail("C15/routes-changed", "%s: registered routes changed: %s", where, d)
 			return false
 		}
-		// a later request is served normally
+		// a later request is served normally - its handler also asks the router something (a second pooled context is
+		// drawn while the request's own is in use) and then still finds its own request in its context
 		log := &world.ReqLog{}
+		log.Inner = func(c fox.Context, h *world.Hit) {
+			_ = c.Fox().Has("GET", wantMatch.Route.Pattern)
+			_, _ = c.Fox().Reverse("GET", reqHost, path)
+			if c.Request() == nil || c.Path() != path || c.Pattern() != wantMatch.Route.Pattern {
+				res.fail("C15/follow-up", "%s: the follow-up request's context no longer shows its own request after the handler asked the router (pattern %q)", where, c.Pattern())
+			}
+		}
 		conn := world.NewConn()
 		func() {
 			defer func() {
@@ -433,7 +450,7 @@ func runC15(src sim.Source, o Opts) *Result {
 					case "refused-status":
 						eventsAtPanic = len(conn.Events)
 						c.Writer().WriteHeader(0)
-					case "copy-source-panics":
+					case "copy-source-panics", "copy-source-panics-fastpath":
 						wroteSomething = true
 						_, _ = io.Copy(c.Writer(), &panickingSource{chunk: "first-chunk;", then: func() {
 							eventsAtPanic = len(conn.Events)
@@ -468,7 +485,11 @@ func runC15(src sim.Source, o Opts) *Result {
 							escaped, escapedSet = p, true
 						}
 					}()
-					w.R.ServeHTTP(conn, mkReq(st.Method, st.Path, log))
+					var rw http.ResponseWriter = conn
+					if pg == "copy-source-panics-fastpath" {
+						rw = conn.Wrap(world.NormCaps(world.Caps{ReaderFrom: true}))
+					}
+					w.R.ServeHTTP(rw, mkReq(st.Method, st.Path, log))
 				}()
 				where := fmt.Sprintf("panic(%s) in %s with progress %q (GET %s)", pv.Name, st.Name, pg, st.Path)
 				if eventsAtPanic < 0 {
@@ -496,6 +517,12 @@ func runC15(src sim.Source, o Opts) *Result {
 							return res
 						}
 					default:
+						if pg == "copy-source-panics-fastpath" && len(conn.Events) > eventsAtPanic && conn.Events[eventsAtPanic].Kind == "header" && conn.Events[eventsAtPanic].Code == 500 && conn.WroteBody {
+							// known finding: the recorder learns the delegated copy's count only when ReadFrom returns; a
+							// source that panics midway leaves it at "nothing written", and Recovery appends its 500 page
+							res.known("C15/fastpath-copy-panic-loses-accounting", fmt.Sprintf("%s: the connection saw %v after the panic", where, conn.Events[eventsAtPanic:]))
+							break
+						}
 						if len(conn.Events) != eventsAtPanic {
 							res.fail("C15/response-touched", "%s: the response must be left untouched, but the connection saw %v after the panic", where, conn.Events[eventsAtPanic:])
 							return res
